@@ -47,8 +47,15 @@ size_t g_vc_string_cap; /* ghost in: storage of every default-constructed string
 #else
 #define VC_STRING_ALLOC0(n) __CPROVER_allocate((n), 1)
 #endif
-/* exceptional exit of a library call: the function under proof does not return normally */
-#define VC_STRING_THROW(what) __CPROVER_assume(0 && what)
+/* exceptional exit of a library call: the function under proof does not return normally.  When the harness has set
+ * g_vc_string_nothrow (it does so exactly when the storage it provides is at least the length the specification
+ * prescribes for the result) an exceptional exit is a violation: this proves that enough storage => normal return. */
+_Bool g_vc_string_nothrow; /* ghost in */
+#define VC_STRING_THROW(what)                                                                                     \
+    {                                                                                                             \
+        __CPROVER_assert(!g_vc_string_nothrow, "std::string stub: library call throws (" what ") although the storage suffices for the specified result"); \
+        __CPROVER_assume(0 && what);                                                                              \
+    }
 #define VC_STRING_NO_LIVE_ITER(s) \
     __CPROVER_assert((s)->g_iter == 0, "std::string stub: growing call while a pointer/iterator into the string is live (invalidation not modelled)")
 
